@@ -44,8 +44,8 @@ theorem mergeSafe_mkUnionMembers {c} {ts : List Ty} (h : ∀ t ∈ ts, Ty.MergeS
   mkUnionMembers_forall (mergeSafe_flatten h) (by simp) (by simp)
 
 theorem hashSound_of_good {ov acc g K} (hs : HashSoundOn ov acc g (Ty.Good K)) {ts : List Ty}
-    (h : ∀ t ∈ ts, Ty.Good K t) : HashSound ov acc g ts :=
-  HashSound.of_on hs (by simp) (good_flatten h)
+    (h : ∀ t ∈ ts, Ty.Good K t) : HashSoundX ov acc g ts :=
+  HashSoundX.of_on hs (by simp) (good_flatten h)
 
 theorem wrapElems_spec {ov acc g K} {c : LitCfg} (hs : HashSoundOn ov acc g (Ty.Good K)) {ts : List Ty}
     (hts : ∀ t ∈ ts, Ty.Good K t ∧ Ty.MergeSafe true t) (wrap : Ty → Ty) :
